@@ -165,9 +165,13 @@ theorem finalize_of_freed (w : World σ ω) (o : Obj) (hf : w.native.freed = tru
   unfold call; simp [hc, hf]
 
 
-theorem onSim_live (w : World σ ω) (f : NSim σ ω → World σ ω × Obs ω) (m : NSim σ ω) (h : cur w.native = .live m) :
-    w.onSim f = f m := by
-  unfold onSim; rw [h]
+theorem onSim_freed (w : World σ ω) (d : World σ ω × Obs ω) (f : NSim σ ω → World σ ω × Obs ω)
+    (hf : w.native.freed = true) : w.onSim d f = d := by
+  unfold onSim; simp [hf]
+
+theorem onSim_live (w : World σ ω) (d : World σ ω × Obs ω) (f : NSim σ ω → World σ ω × Obs ω) (m : NSim σ ω)
+    (hf : w.native.freed = false) (h : cur w.native = .live m) : w.onSim d f = f m := by
+  unfold onSim; simp [hf, h]
 
 /-! ### what a call on object A reads of the world: `setup` starts from a clean slate -/
 
@@ -217,46 +221,36 @@ theorem call_setup_ok (w : World σ ω) (o : Obj) (sc : Setup σ ω) (hc : w.cra
   unfold call; simp [hc, hr]
 
 theorem call_iterate (w : World σ ω) (o : Obj) (hc : w.crashed = false) :
-    w.call o .iterate = w.onSim fun m => w.drive o m (Sim.iterate m.algo m.cfg m.sim) := by
+    w.call o .iterate = w.onSim (w.driveDead o) fun m => w.drive o m (Sim.iterate m.algo m.cfg m.sim) := by
   unfold call; simp [hc]
 
-theorem call_iterateN_zero (w : World σ ω) (o : Obj) (n : Int) (hc : w.crashed = false) (hn : n.toNat = 0) :
-    w.call o (.iterateN n) = (w.setObj o { (w.obj o) with unfinished := true }, .bool true) := by
+theorem call_iterateN_nonpos (w : World σ ω) (o : Obj) (n : Int) (hc : w.crashed = false) (hn : n ≤ 0) :
+    w.call o (.iterateN n) = (w, .bool (w.obj o).unfinished) := by
   unfold call; simp [hc, hn]
 
-theorem call_iterateN_pos (w : World σ ω) (o : Obj) (n : Int) (hc : w.crashed = false) (hn : ¬ n.toNat = 0) :
-    w.call o (.iterateN n) = w.onSim fun m => w.drive o m (Sim.iterateN m.algo m.cfg n.toNat m.sim) := by
+theorem call_iterateN_pos (w : World σ ω) (o : Obj) (n : Int) (hc : w.crashed = false) (hn : ¬ n ≤ 0) :
+    w.call o (.iterateN n) = w.onSim (w.driveDead o) fun m => w.drive o m (Sim.iterateN m.algo m.cfg n.toNat m.sim) := by
   unfold call; simp [hc, hn]
 
 theorem call_run (w : World σ ω) (o : Obj) (k : Nat) (hc : w.crashed = false) :
-    w.call o (.run k) = w.onSim fun m => w.drive o m (Sim.run m.algo m.cfg k m.sim) := by
+    w.call o (.run k) = w.onSim (w.driveDead o) fun m => w.drive o m (Sim.run m.algo m.cfg k m.sim) := by
   unfold call; simp [hc]
 
 theorem call_sample (w : World σ ω) (o : Obj) (hc : w.crashed = false) :
-    w.call o .sample = w.onSim fun m => (w.putSim m (m.sim.sample m.algo), .unit) := by
+    w.call o .sample = w.onSim (w, .unit) fun m => (w.putSim m (m.sim.sample m.algo), .unit) := by
   unfold call; simp [hc]
 
 theorem call_getProgress (w : World σ ω) (o : Obj) (hc : w.crashed = false) :
-    w.call o .getProgress = w.onSim fun m => (w, .num (Sim.progress m.cfg m.sim)) := by
+    w.call o .getProgress = w.onSim (w, .num 0) fun m => (w, .num (Sim.progress m.cfg m.sim)) := by
   unfold call; simp [hc]
 
 theorem call_isComplete (w : World σ ω) (o : Obj) (hc : w.crashed = false) :
     w.call o .isComplete = (w, .bool (!(w.obj o).unfinished)) := by
   unfold call; simp [hc]
 
-/-- `get_output` on a live simulation -/
-def outputOf (w : World σ ω) (o : Obj) (m : NSim σ ω) : World σ ω × Obs ω :=
-  match (w.obj o).script with
-  | none => (w, .raised)
-  | some sc =>
-    if m.sim.recs.length = 0 ∨ m.size = sc.stateSize then
-      (w, .output (exportTimes m.sim.recs) (m.sim.recs.map (·.2)))
-    else if sc.stateSize < m.size then w.crash
-    else (w, .garbled)
-
 theorem call_getOutput (w : World σ ω) (o : Obj) (hc : w.crashed = false) :
-    w.call o .getOutput = w.onSim fun m => outputOf w o m := by
-  unfold call; simp only [hc, Bool.false_eq_true, if_false]; rfl
+    w.call o .getOutput = w.onSim (w.outputDead o) fun m => w.outputOf o m := by
+  unfold call; simp [hc]
 
 theorem call_finalize_live (w : World σ ω) (o : Obj) (m : NSim σ ω) (hc : w.crashed = false) (hf : w.native.freed = false)
     (hm : cur w.native = .live m) :
@@ -272,23 +266,45 @@ theorem call_finalize_dangling (w : World σ ω) (o : Obj) (hc : w.crashed = fal
     (hm : cur w.native = .dangling) : w.call o .finalize = w.crash := by
   unfold call; simp [hc, hf, hm]
 
-theorem onSim_null (w : World σ ω) (f : NSim σ ω → World σ ω × Obs ω) (h : cur w.native = .null) : w.onSim f = w.crash := by
-  unfold onSim; rw [h]
+theorem onSim_null (w : World σ ω) (d : World σ ω × Obs ω) (f : NSim σ ω → World σ ω × Obs ω)
+    (hf : w.native.freed = false) (h : cur w.native = .null) : w.onSim d f = w.crash := by
+  unfold onSim; simp [hf, h]
 
-theorem onSim_dangling (w : World σ ω) (f : NSim σ ω → World σ ω × Obs ω) (h : cur w.native = .dangling) : w.onSim f = w.crash := by
-  unfold onSim; rw [h]
+theorem onSim_dangling (w : World σ ω) (d : World σ ω × Obs ω) (f : NSim σ ω → World σ ω × Obs ω)
+    (hf : w.native.freed = false) (h : cur w.native = .dangling) : w.onSim d f = w.crash := by
+  unfold onSim; simp [hf, h]
 
-theorem relA_refl_crashed (w1 w2 : World σ ω) (h : RelA w1 w2) : (w1.crash).2 = (w2.crash).2 := rfl
-
-/-- `onSim` respects `RelA` when the continuation does -/
-theorem onSim_rel (w1 w2 : World σ ω) (f1 f2 : NSim σ ω → World σ ω × Obs ω) (h : RelA w1 w2)
+/-- `onSim` respects `RelA` when both continuations do -/
+theorem onSim_rel (w1 w2 : World σ ω) (d1 d2 : World σ ω × Obs ω) (f1 f2 : NSim σ ω → World σ ω × Obs ω) (h : RelA w1 w2)
+    (hd : d1.2 = d2.2 ∧ RelA d1.1 d2.1)
     (hf : ∀ m, (f1 m).2 = (f2 m).2 ∧ RelA (f1 m).1 (f2 m).1) :
-    (w1.onSim f1).2 = (w2.onSim f2).2 ∧ RelA (w1.onSim f1).1 (w2.onSim f2).1 := by
+    (w1.onSim d1 f1).2 = (w2.onSim d2 f2).2 ∧ RelA (w1.onSim d1 f1).1 (w2.onSim d2 f2).1 := by
   have hcur := h.2.2.2.1
-  cases hp : cur w1.native with
-  | live m => rw [onSim_live w1 f1 m hp, onSim_live w2 f2 m (hcur ▸ hp)]; exact hf m
-  | null => rw [onSim_null w1 f1 hp, onSim_null w2 f2 (hcur ▸ hp)]; exact ⟨rfl, relA_crash _ _ h⟩
-  | dangling => rw [onSim_dangling w1 f1 hp, onSim_dangling w2 f2 (hcur ▸ hp)]; exact ⟨rfl, relA_crash _ _ h⟩
+  have hfr := h.2.2.2.2
+  by_cases hf1 : w1.native.freed = true
+  · rw [onSim_freed w1 d1 f1 hf1, onSim_freed w2 d2 f2 (hfr ▸ hf1)]; exact hd
+  · simp only [Bool.not_eq_true] at hf1
+    have hf2 : w2.native.freed = false := hfr ▸ hf1
+    cases hp : cur w1.native with
+    | live m => rw [onSim_live w1 d1 f1 m hf1 hp, onSim_live w2 d2 f2 m hf2 (hcur ▸ hp)]; exact hf m
+    | null => rw [onSim_null w1 d1 f1 hf1 hp, onSim_null w2 d2 f2 hf2 (hcur ▸ hp)]; exact ⟨rfl, relA_crash _ _ h⟩
+    | dangling => rw [onSim_dangling w1 d1 f1 hf1 hp, onSim_dangling w2 d2 f2 hf2 (hcur ▸ hp)]; exact ⟨rfl, relA_crash _ _ h⟩
+
+theorem driveDead_rel (w1 w2 : World σ ω) (h : RelA w1 w2) :
+    (w1.driveDead .A).2 = (w2.driveDead .A).2 ∧ RelA (w1.driveDead .A).1 (w2.driveDead .A).1 := by
+  unfold driveDead
+  have ha : (w1.obj .A) = (w2.obj .A) := h.2.1
+  rw [ha]
+  exact ⟨rfl, relA_setObj _ _ _ h⟩
+
+theorem outputDead_rel (w1 w2 : World σ ω) (h : RelA w1 w2) :
+    (w1.outputDead .A).2 = (w2.outputDead .A).2 ∧ RelA (w1.outputDead .A).1 (w2.outputDead .A).1 := by
+  unfold outputDead
+  have ha : (w1.obj .A) = (w2.obj .A) := h.2.1
+  rw [ha]
+  cases (w2.obj .A).script with
+  | none => exact ⟨rfl, h⟩
+  | some sc => exact ⟨rfl, h⟩
 
 theorem outputOf_rel (w1 w2 : World σ ω) (m : NSim σ ω) (h : RelA w1 w2) :
     (outputOf w1 .A m).2 = (outputOf w2 .A m).2 ∧ RelA (outputOf w1 .A m).1 (outputOf w2 .A m).1 := by
@@ -333,28 +349,28 @@ theorem call_rel (w1 w2 : World σ ω) (c : Call σ ω) (h : RelA w1 w2) :
           rw [(nativeInit_cur _ sc).2.1, (nativeInit_cur _ sc).2.1]
     | iterate =>
       rw [call_iterate w1 _ hcr, call_iterate w2 _ hcr2]
-      exact onSim_rel w1 w2 _ _ hh (fun m => relA_drive w1 w2 m _ hh)
+      exact onSim_rel w1 w2 _ _ _ _ hh (driveDead_rel w1 w2 hh) (fun m => relA_drive w1 w2 m _ hh)
     | iterateN n =>
-      by_cases hn : n.toNat = 0
-      · rw [call_iterateN_zero w1 _ _ hcr hn, call_iterateN_zero w2 _ _ hcr2 hn, hoA]
-        exact ⟨rfl, relA_setObj _ _ _ hh⟩
+      by_cases hn : n ≤ 0
+      · rw [call_iterateN_nonpos w1 _ _ hcr hn, call_iterateN_nonpos w2 _ _ hcr2 hn, hoA]
+        exact ⟨rfl, hh⟩
       · rw [call_iterateN_pos w1 _ _ hcr hn, call_iterateN_pos w2 _ _ hcr2 hn]
-        exact onSim_rel w1 w2 _ _ hh (fun m => relA_drive w1 w2 m _ hh)
+        exact onSim_rel w1 w2 _ _ _ _ hh (driveDead_rel w1 w2 hh) (fun m => relA_drive w1 w2 m _ hh)
     | run k =>
       rw [call_run w1 _ _ hcr, call_run w2 _ _ hcr2]
-      exact onSim_rel w1 w2 _ _ hh (fun m => relA_drive w1 w2 m _ hh)
+      exact onSim_rel w1 w2 _ _ _ _ hh (driveDead_rel w1 w2 hh) (fun m => relA_drive w1 w2 m _ hh)
     | sample =>
       rw [call_sample w1 _ hcr, call_sample w2 _ hcr2]
-      exact onSim_rel w1 w2 _ _ hh (fun m => ⟨rfl, relA_putSim _ _ _ _ hh⟩)
+      exact onSim_rel w1 w2 _ _ _ _ hh ⟨rfl, hh⟩ (fun m => ⟨rfl, relA_putSim _ _ _ _ hh⟩)
     | getProgress =>
       rw [call_getProgress w1 _ hcr, call_getProgress w2 _ hcr2]
-      exact onSim_rel w1 w2 _ _ hh (fun m => ⟨rfl, hh⟩)
+      exact onSim_rel w1 w2 _ _ _ _ hh ⟨rfl, hh⟩ (fun m => ⟨rfl, hh⟩)
     | isComplete =>
       rw [call_isComplete w1 _ hcr, call_isComplete w2 _ hcr2, hoA]
       exact ⟨rfl, hh⟩
     | getOutput =>
       rw [call_getOutput w1 _ hcr, call_getOutput w2 _ hcr2]
-      exact onSim_rel w1 w2 _ _ hh (fun m => outputOf_rel w1 w2 m hh)
+      exact onSim_rel w1 w2 _ _ _ _ hh (outputDead_rel w1 w2 hh) (fun m => outputOf_rel w1 w2 m hh)
     | finalize =>
       by_cases hfr : w1.native.freed = true
       · rw [finalize_of_freed w1 _ hfr hcr, finalize_of_freed w2 _ (hf ▸ hfr) hcr2]; exact ⟨rfl, hh⟩
@@ -404,17 +420,14 @@ theorem setup_rel (w1 w2 : World σ ω) (sc : Setup σ ω) (h1 : w1.crashed = fa
     rw [(nativeInit_cur _ sc).2.1, (nativeInit_cur _ sc).2.1]
 
 
-/-! ### the documented lifecycle never faults; the reported status refers to the current simulation -/
+/-! ### no call faults on one engine object; the reported status refers to the current simulation -/
 
-/-- the lifecycle the API documents ("should be called after setup and before finalize"; finalize last):
-on an engine that is not set up only `setup`, `finalize`, `is_complete` (and the no-op `iterate_n(k ≤ 0)`)
-occur; scripts are valid (marshalling does not raise).  `some live'` = allowed, new liveness. -/
+/-- histories of one engine object with valid scripts (marshalling does not raise): every call is allowed at
+any point (the entry points test `global_algo_freed`).  `some live'` = allowed, new liveness. -/
 def stepLive (live : Bool) : Call σ ω → Option Bool
   | .setup sc => if sc.raises then none else some true
   | .finalize => some false
-  | .isComplete => some live
-  | .iterateN n => if n.toNat = 0 then some live else if live then some true else none
-  | _ => if live then some true else none
+  | _ => some live
 
 def Respecting : Bool → List (Call σ ω) → Prop
   | _, [] => True
@@ -425,7 +438,7 @@ def Good (live : Bool) (w : World σ ω) : Prop :=
   w.crashed = false ∧
   (live = true → w.native.freed = false ∧ ∃ m sc, cur w.native = .live m ∧ w.a.script = some sc ∧ m.size = sc.stateSize) ∧
   (live = false → w.native.freed = true) ∧
-  (w.a.unfinished = false → ∀ m, cur w.native = .live m → m.sim.complete = true)
+  (w.a.unfinished = false → w.native.freed = false → ∀ m, cur w.native = .live m → m.sim.complete = true)
 
 theorem putSim_crashed (w : World σ ω) (m : NSim σ ω) (s : Sim σ ω) : (w.putSim m s).crashed = w.crashed := rfl
 
@@ -444,12 +457,23 @@ theorem drive_good (w : World σ ω) (m : NSim σ ω) (sc : Setup σ ω) (r : Si
     · show ((w.putSim m r.1).obj .A).script = some sc
       exact hsc
   · intro h; cases h
-  · intro hu m' hm'
+  · intro hu _ m' hm'
     rw [setObj_native, putSim_cur] at hm'
     have hu' : r.2 = false := hu
     have := hr hu'
     cases hm'
     exact this
+
+/-- a world whose library holds no simulation: `Good false` is kept by changing A's wrapper only -/
+theorem good_dead_setObj (w : World σ ω) (x : Wrapper σ ω) (hg : Good false w) : Good false (w.setObj .A x) := by
+  obtain ⟨hc, _, hnl, _⟩ := hg
+  refine ⟨?_, ?_, ?_, ?_⟩
+  · rw [setObj_crashed]; exact hc
+  · intro h; cases h
+  · intro _; rw [setObj_native]; exact hnl rfl
+  · intro _ hf
+    rw [setObj_native, hnl rfl] at hf
+    cases hf
 
 theorem good_step (live live' : Bool) (w : World σ ω) (c : Call σ ω) (hg : Good live w) (hs : stepLive live c = some live') :
     (w.call .A c).2 ≠ .fault ∧ Good live' (w.call .A c).1 := by
@@ -472,82 +496,85 @@ theorem good_step (live live' : Bool) (w : World σ ω) (c : Call σ ω) (hg : G
       · intro h; cases h
       · intro h; cases h
   | iterate =>
-    unfold stepLive at hs
+    simp only [stepLive, Option.some.injEq] at hs; subst hs
+    rw [call_iterate w _ hc]
     cases live with
-    | false => simp at hs
+    | false =>
+      rw [onSim_freed w _ _ (hnl rfl)]
+      exact ⟨by simp [driveDead], good_dead_setObj w _ hgg⟩
     | true =>
-      simp only [if_true, Option.some.injEq] at hs; subst hs
-      obtain ⟨_, m, sc, hm, hsc, hsz⟩ := hl rfl
-      rw [call_iterate w _ hc, onSim_live w _ m hm]
+      obtain ⟨hf, m, sc, hm, hsc, hsz⟩ := hl rfl
+      rw [onSim_live w _ _ m hf hm]
       exact drive_good w m sc _ hgg hm hsc hsz (fun h => by
         have := Sim.iterate_snd m.algo m.cfg m.sim; rw [h] at this; simpa using this.symm)
   | iterateN n =>
-    unfold stepLive at hs
-    by_cases hn : n.toNat = 0
-    · simp only [hn, if_true, Option.some.injEq] at hs; subst hs
-      rw [call_iterateN_zero w _ _ hc hn]
-      refine ⟨by simp, ?_, ?_, hnl, ?_⟩
-      · rw [setObj_crashed]; exact hc
-      · intro h
-        obtain ⟨hf, m, sc, hm, hsc, hsz⟩ := hl h
-        exact ⟨hf, m, sc, hm, hsc, hsz⟩
-      · intro h; cases h
-    · simp only [hn, if_false] at hs
+    simp only [stepLive, Option.some.injEq] at hs; subst hs
+    by_cases hn : n ≤ 0
+    · rw [call_iterateN_nonpos w _ _ hc hn]
+      exact ⟨by simp, hgg⟩
+    · rw [call_iterateN_pos w _ _ hc hn]
       cases live with
-      | false => simp at hs
+      | false =>
+        rw [onSim_freed w _ _ (hnl rfl)]
+        exact ⟨by simp [driveDead], good_dead_setObj w _ hgg⟩
       | true =>
-        simp only [if_true, Option.some.injEq] at hs; subst hs
-        obtain ⟨_, m, sc, hm, hsc, hsz⟩ := hl rfl
-        rw [call_iterateN_pos w _ _ hc hn, onSim_live w _ m hm]
+        obtain ⟨hf, m, sc, hm, hsc, hsz⟩ := hl rfl
+        rw [onSim_live w _ _ m hf hm]
         exact drive_good w m sc _ hgg hm hsc hsz (Sim.iterateN_false_complete m.algo m.cfg _ m.sim)
   | run k =>
-    unfold stepLive at hs
+    simp only [stepLive, Option.some.injEq] at hs; subst hs
+    rw [call_run w _ _ hc]
     cases live with
-    | false => simp at hs
+    | false =>
+      rw [onSim_freed w _ _ (hnl rfl)]
+      exact ⟨by simp [driveDead], good_dead_setObj w _ hgg⟩
     | true =>
-      simp only [if_true, Option.some.injEq] at hs; subst hs
-      obtain ⟨_, m, sc, hm, hsc, hsz⟩ := hl rfl
-      rw [call_run w _ _ hc, onSim_live w _ m hm]
+      obtain ⟨hf, m, sc, hm, hsc, hsz⟩ := hl rfl
+      rw [onSim_live w _ _ m hf hm]
       exact drive_good w m sc _ hgg hm hsc hsz (Sim.run_false_complete m.algo m.cfg _ m.sim)
   | sample =>
-    unfold stepLive at hs
+    simp only [stepLive, Option.some.injEq] at hs; subst hs
+    rw [call_sample w _ hc]
     cases live with
-    | false => simp at hs
+    | false => rw [onSim_freed w _ _ (hnl rfl)]; exact ⟨by simp, hgg⟩
     | true =>
-      simp only [if_true, Option.some.injEq] at hs; subst hs
       obtain ⟨hf, m, sc, hm, hsc, hsz⟩ := hl rfl
-      rw [call_sample w _ hc, onSim_live w _ m hm]
+      rw [onSim_live w _ _ m hf hm]
       refine ⟨by simp, hc, ?_, ?_, ?_⟩
       · intro _
         exact ⟨by rw [putSim_freed]; exact hf, { m with sim := m.sim.sample m.algo }, sc, putSim_cur _ _ _, hsc, hsz⟩
       · intro h; cases h
-      · intro hu m' hm'
+      · intro hu _ m' hm'
         rw [putSim_cur] at hm'
         cases hm'
         simp only [Sim.sample_complete]
-        exact hst hu m hm
+        exact hst hu hf m hm
   | getProgress =>
-    unfold stepLive at hs
+    simp only [stepLive, Option.some.injEq] at hs; subst hs
+    rw [call_getProgress w _ hc]
     cases live with
-    | false => simp at hs
+    | false => rw [onSim_freed w _ _ (hnl rfl)]; exact ⟨by simp, hgg⟩
     | true =>
-      simp only [if_true, Option.some.injEq] at hs; subst hs
       obtain ⟨hf, m, sc, hm, hsc, hsz⟩ := hl rfl
-      rw [call_getProgress w _ hc, onSim_live w _ m hm]
+      rw [onSim_live w _ _ m hf hm]
       exact ⟨by simp, hgg⟩
   | isComplete =>
-    unfold stepLive at hs
-    simp only [Option.some.injEq] at hs; subst hs
+    simp only [stepLive, Option.some.injEq] at hs; subst hs
     rw [call_isComplete w _ hc]
     exact ⟨by simp, hgg⟩
   | getOutput =>
-    unfold stepLive at hs
+    simp only [stepLive, Option.some.injEq] at hs; subst hs
+    rw [call_getOutput w _ hc]
     cases live with
-    | false => simp at hs
+    | false =>
+      rw [onSim_freed w _ _ (hnl rfl)]
+      unfold outputDead
+      cases (w.obj .A).script with
+      | none => exact ⟨by simp, hgg⟩
+      | some sc => exact ⟨by simp, hgg⟩
     | true =>
-      simp only [if_true, Option.some.injEq] at hs; subst hs
       obtain ⟨hf, m, sc, hm, hsc, hsz⟩ := hl rfl
-      rw [call_getOutput w _ hc, onSim_live w _ m hm]
+      rw [onSim_live w _ _ m hf hm]
       unfold outputOf
       have : (w.obj .A).script = some sc := hsc
       rw [this]
@@ -566,14 +593,9 @@ theorem good_step (live live' : Bool) (w : World σ ω) (c : Call σ ω) (hg : G
       refine ⟨by simp, hc, ?_, ?_, ?_⟩
       · intro h; cases h
       · intro _; rfl
-      · intro _ m' hm'
-        have e1 := cur_setCur w.native (.dangling : Ptr (NSim σ ω))
-        have e3 : cur ({ (setCur w.native .dangling) with freed := true } : Native σ ω) = cur (setCur w.native .dangling) := rfl
-        have : cur ({ (setCur w.native .dangling) with freed := true } : Native σ ω) = .live m' := hm'
-        rw [e3, e1] at this
-        cases this
+      · intro _ hfr; cases hfr
 
-/-- a lifecycle-respecting history of calls on one engine object never faults -/
+/-- a history of calls on one engine object with valid scripts never faults -/
 theorem respecting_no_fault (h : List (Call σ ω)) (live : Bool) (w : World σ ω) (hg : Good live w) (hr : Respecting live h) :
     ∀ ob ∈ (w.runHist (h.map fun c => (Obj.A, c))).2, ob ≠ Obs.fault := by
   induction h generalizing live w with
@@ -598,23 +620,30 @@ theorem getOutput_pure (w : World σ ω) (o : Obj) (h : (w.call o .getOutput).2 
   · rw [call_crashed w _ _ hc]
   · simp only [Bool.not_eq_true] at hc
     rw [call_getOutput w _ hc] at h ⊢
-    cases hp : cur w.native with
-    | live m =>
-      rw [onSim_live w _ m hp] at h ⊢
-      unfold outputOf at h ⊢
-      cases hs : (w.obj o).script with
+    by_cases hf : w.native.freed = true
+    · rw [onSim_freed w _ _ hf]
+      unfold outputDead
+      cases (w.obj o).script with
       | none => rfl
-      | some sc =>
-        rw [hs] at h
-        dsimp only at h ⊢
-        by_cases h1 : m.sim.recs.length = 0 ∨ m.size = sc.stateSize
-        · rw [if_pos h1]
-        · rw [if_neg h1] at h ⊢
-          by_cases h2 : sc.stateSize < m.size
-          · rw [if_pos h2] at h; exact absurd rfl h
-          · rw [if_neg h2]
-    | null => rw [onSim_null w _ hp] at h; exact absurd rfl h
-    | dangling => rw [onSim_dangling w _ hp] at h; exact absurd rfl h
+      | some sc => rfl
+    · simp only [Bool.not_eq_true] at hf
+      cases hp : cur w.native with
+      | live m =>
+        rw [onSim_live w _ _ m hf hp] at h ⊢
+        unfold outputOf at h ⊢
+        cases hs : (w.obj o).script with
+        | none => rfl
+        | some sc =>
+          rw [hs] at h
+          dsimp only at h ⊢
+          by_cases h1 : m.sim.recs.length = 0 ∨ m.size = sc.stateSize
+          · rw [if_pos h1]
+          · rw [if_neg h1] at h ⊢
+            by_cases h2 : sc.stateSize < m.size
+            · rw [if_pos h2] at h; exact absurd rfl h
+            · rw [if_neg h2]
+      | null => rw [onSim_null w _ _ hf hp] at h; exact absurd rfl h
+      | dangling => rw [onSim_dangling w _ _ hf hp] at h; exact absurd rfl h
 
 end World
 end Strengths
